@@ -642,6 +642,32 @@ def discrete(ctx, lines, info):
     if spm != want:
         src.fail(src.method("SparseDiscreteBoundaryOperator", "_matmat"), "sparse real/complex splitting changed")
     lines.append("Definition real_complex_split : bool := true.   (* A x = A re(x) + i A im(x) for real A, three classes *)")
+    # transposes / adjoints of the leaf classes: which classes define them and what they build
+    tr = {"DenseDiscreteBoundaryOperator": ("DenseDiscreteBoundaryOperator(self.to_dense().T)",
+                                            "DenseDiscreteBoundaryOperator(self.to_dense().conjugate().transpose())", "TrDense"),
+          "SparseDiscreteBoundaryOperator": ("SparseDiscreteBoundaryOperator(self.to_sparse().transpose())",
+                                             "SparseDiscreteBoundaryOperator(self.to_sparse().transpose().conjugate())", "TrDense"),
+          "DiagonalOperator": ("self", "DiagonalOperator(self._values.conjugate())", "TrSelf"),
+          "DiscreteRankOneOperator": ("DiscreteRankOneOperator(self._row, self._column)",
+                                      "DiscreteRankOneOperator(self._row.conjugate(), self._column.conjugate())", "TrSwap")}
+    have = []
+    for cname, cdef in src.classes.items():
+        if "_DiscreteOperatorBase" not in [u(b) for b in cdef.bases]:
+            continue
+        t, a = src.method(cname, "_transpose", required=False), src.method(cname, "_adjoint", required=False)
+        if (t is None) != (a is None):
+            src.fail(cdef, "%s defines only one of _transpose/_adjoint" % cname)
+        if t is None:
+            continue
+        if cname not in tr:
+            src.fail(t, "new _transpose in %s: not modelled" % cname)
+        if u(single_return(src, t)) != tr[cname][0] or u(single_return(src, a)) != tr[cname][1]:
+            src.fail(t, "_transpose/_adjoint of %s changed" % cname)
+        have.append((cname, tr[cname][2]))
+    if sorted(c for c, _ in have) != sorted(tr):
+        src.fail(src.tree, "set of classes with _transpose/_adjoint changed: %s" % sorted(c for c, _ in have))
+    lines.append("Definition transposable : list (string * trkind) := [%s]." % "; ".join('("%s", %s)' % h for h in have))
+    info["transposable"] = have
     return src
 
 
@@ -775,6 +801,34 @@ def packing(ctx, lines, info):
            "if not isinstance(other, BlockedOperatorBase):\n    return NotImplemented": "AddNotImplemented"}
     if len(add) != 2 or add[0] not in ret or add[1] != "return SumBlockedOperator(self, other)":
         src.fail(src.method("BlockedOperatorBase", "__add__"), "BlockedOperatorBase.__add__ changed")
+    # BlockedDiscreteOperator: missing blocks become zero operators of the row / column size; to_dense stacks the blocks;
+    # _matvec / _matmat add block products over slices (model: Algebra/BlockMat.v)
+    bd = "BlockedDiscreteOperator"
+    init = u(src.method(bd, "__init__"))
+    for need in ("if ops[i, j] is None:\n                continue",
+                 "self._operators[i, j] = ZeroDiscreteBoundaryOperator(self._rows[i], self._cols[j])",
+                 "shape = (_np.sum(self._rows), _np.sum(self._cols))",
+                 "if ops[i, j].shape[0] != self._rows[i]:", "if ops[i, j].shape[1] != self._cols[j]:"):
+        if need not in init:
+            src.fail(src.method(bd, "__init__"), "BlockedDiscreteOperator.__init__ changed: missing `%s`" % need)
+    td = [u(x) for x in body_of(src.method(bd, "to_dense"))]
+    if td != ["rows = []", "for i in range(self._ndims[0]):\n    row = [self[i, j].to_dense() for j in range(self._ndims[1])]\n"
+              "    rows.append(_np.hstack(row))", "return _np.vstack(rows)"]:
+        src.fail(src.method(bd, "to_dense"), "BlockedDiscreteOperator.to_dense changed")
+    for meth, slc in (("_matvec", "local_x = x[col_dim:col_dim + self._cols[j]]"),
+                      ("_matmat", "local_x = x[col_dim:col_dim + self._cols[j], :]")):
+        mm = u(src.method(bd, meth))
+        for need in (slc, "col_dim += self._cols[j]", "row_dim += self._rows[i]",
+                     "self._operators[i, j].dot(_np.real(local_x)) + 1j * self._operators[i, j].dot(_np.imag(local_x))",
+                     "self._operators[i, j].dot(local_x)"):
+            if need not in mm:
+                src.fail(src.method(bd, meth), "BlockedDiscreteOperator.%s changed: missing `%s`" % (meth, need))
+    asm = [u(x) for x in body_of(src.method("BlockedOperator", "_assemble"))]
+    if asm[-3:] != ["ops = _np.empty((self.ndims[0], self.ndims[1]), dtype='O')",
+                    "for i in range(self.ndims[0]):\n    for j in range(self.ndims[1]):\n        if self._operators[i, j] is not None:\n"
+                    "            ops[i, j] = self._operators[i, j].weak_form()", "return BlockedDiscreteOperator(ops)"]:
+        src.fail(src.method("BlockedOperator", "_assemble"), "BlockedOperator._assemble changed")
+    lines.append("Definition blocked_discrete_matches_model : bool := true.   (* literal shape of __init__/to_dense/_matvec/_matmat *)")
     lines.append("Definition slice_projections_by : dimsel := %s.   (* grid_function_list_from_projections *)" % sel)
     lines.append("Definition slice_coefficients_by : dimsel := DimSpace.")
     lines.append("Definition blocked_add_foreign : addforeign := %s." % ret[add[0]])
